@@ -105,6 +105,30 @@ def single_defs(f: Func) -> Dict[str, ast.expr]:
     return env
 
 
+def source_order(root: ast.AST) -> Dict[int, Tuple[int, int]]:
+    """id(node) -> (start, end) in a depth-first numbering of root in execution-text order.  Unlike line numbers this is meaningful in a
+    function into which helpers were inlined (their statements keep the line numbers of the helper's own definition)."""
+    cached = getattr(root, "_order", None)
+    if cached is not None:
+        return cached
+    out: Dict[int, Tuple[int, int]] = {}
+    k = [0]
+
+    def visit(n):
+        k[0] += 1
+        s0 = k[0]
+        for ch in ast.iter_child_nodes(n):
+            visit(ch)
+        k[0] += 1
+        out[id(n)] = (s0, k[0])
+    visit(root)
+    try:
+        root._order = out  # type: ignore[attr-defined]
+    except Exception:
+        pass
+    return out
+
+
 def _loops_around(n: ast.AST, root: ast.AST) -> List[ast.AST]:
     out = []
     p_ = parent(n)
@@ -134,11 +158,21 @@ def _operands_stable(f: Func, name: str, e: ast.expr, rebinds: Dict[str, List[as
     if d is None:
         return False
     dl = _loops_around(d, f.node)
+    order = source_order(f.node)
+
+    def before(a, b) -> bool:
+        """a starts before b in the text of the function (or a is b)"""
+        return order.get(id(a), (0, 0))[0] <= order.get(id(b), (0, 0))[0]
+
+    def after_binding(u, r) -> bool:
+        """the use u comes after the point where r binds: after the whole statement, or — for a loop header — anywhere after its start"""
+        ou, orr = order.get(id(u), (0, 0)), order.get(id(r), (0, 0))
+        return ou[0] > orr[0] if isinstance(r, (ast.For, ast.AsyncFor, ast.While)) else ou[0] > orr[1]
     for v in ops:
         for r in rebinds[v]:
             if isinstance(r, (ast.For, ast.AsyncFor)) and any(r is l_ for l_ in dl):
                 continue   # the loop variable of a loop around the definition: bound at the header, before the definition, in every iteration
-            if getattr(r, "lineno", 0) <= d.lineno and not isinstance(r, (ast.For, ast.AsyncFor, ast.While)):
+            if before(r, d) and not isinstance(r, (ast.For, ast.AsyncFor, ast.While)):
                 # textually before the definition; harmless if it shares all loops with the definition (the definition re-runs after it)
                 rl = _loops_around(r, f.node)
                 if all(any(a is b for b in dl) for a in rl):
@@ -146,7 +180,7 @@ def _operands_stable(f: Func, name: str, e: ast.expr, rebinds: Dict[str, List[as
             rl = [r] + _loops_around(r, f.node) if isinstance(r, (ast.For, ast.AsyncFor)) else _loops_around(r, f.node)
             shared_extra = [l_ for l_ in rl if not any(l_ is x for x in dl)]   # loops around r that do not contain the definition
             for u in uses:
-                if getattr(u, "lineno", 0) > getattr(r, "end_lineno", getattr(r, "lineno", 0)) - (1 if isinstance(r, (ast.For, ast.While)) else 0) and getattr(r, "lineno", 0) > d.lineno:
+                if after_binding(u, r) and not before(r, d):
                     return False
                 ul = _loops_around(u, f.node)
                 if any(any(l_ is x for x in ul) for l_ in shared_extra):
@@ -591,6 +625,7 @@ def loop_env(lp: Optional[ast.AST]) -> Dict[str, ast.expr]:
             for x in ast.walk(t):
                 if isinstance(x, ast.Name) and isinstance(x.ctx, ast.Store):
                     binds.setdefault(x.id, []).append(n)
+    order = source_order(lp)
     for k in list(out):
         d = defs.get(k)
         ops = {x.id for x in ast.walk(out[k]) if isinstance(x, ast.Name)} & set(binds)
@@ -598,11 +633,11 @@ def loop_env(lp: Optional[ast.AST]) -> Dict[str, ast.expr]:
         bad = False
         for v in ops:
             for r in binds[v]:
-                if r is d or getattr(r, "lineno", 0) <= getattr(d, "lineno", 0):
+                if r is d or order.get(id(r), (0, 0))[0] <= order.get(id(d), (0, 0))[0]:
                     continue      # before the definition in the iteration: the definition sees the new value
                 if isinstance(r, (ast.For, ast.AsyncFor)) and any(x is d for x in ast.walk(r)):
                     continue      # loop variable of an inner loop around the definition
-                if any(getattr(u, "lineno", 0) > getattr(r, "lineno", 0) for u in uses):
+                if any(order.get(id(u), (0, 0))[0] > order.get(id(r), (0, 0))[0] for u in uses):
                     bad = True
         if bad:
             del out[k]
